@@ -102,11 +102,11 @@ BUS_PROPS = {
     'C03': dict(oracle=lambda F, w: oracle.c03(F),
                 profiles=[('clean', 2), ('single', 2), ('nested', 3), ('multi', 3), ('multi_fwd', 2), ('errors', 2), ('deep', 1), ('backlog', 1), ('await_any', 2)]),
     'C04': dict(oracle=lambda F, w: oracle.c04(F),
-                profiles=[('clean', 3), ('single', 2), ('gap', 3), ('gap_fwd', 2), ('nested', 3), ('multi', 2), ('deep', 1), ('await_any', 3), ('await_any_clean', 2)]),
+                profiles=[('clean', 3), ('single', 2), ('gap', 3), ('gap_fwd', 2), ('nested', 3), ('multi', 2), ('deep', 1), ('await_any', 3), ('await_any_clean', 2), ('timeouts', 3)]),
     'C05': dict(oracle=lambda F, w: oracle.c05(F),
                 profiles=[('clean', 3), ('backlog', 3), ('gap', 2), ('multi', 2), ('nested', 2), ('await_any', 2), ('multi_stop', 3)]),
     'C06': dict(oracle=lambda F, w: oracle.c06(F),
-                profiles=[('clean', 1), ('multi', 4), ('nested', 2), ('parallel', 2), ('stalls', 2), ('gap', 2), ('multi_fwd', 2), ('multi_stop', 4)]),
+                profiles=[('clean', 1), ('multi', 4), ('nested', 2), ('parallel', 2), ('stalls', 2), ('gap', 2), ('multi_fwd', 2), ('multi_stop', 4), ('errors_parallel', 3)]),
     'C07': dict(oracle=lambda F, w: oracle.c07(F),
                 profiles=[('topo', 5), ('topo_traffic', 4), ('topo_redispatch', 3), ('topo_small_history', 3), ('multi_fwd', 2)]),
     'C08': dict(oracle=lambda F, w: oracle.c08(F), watch=completion_watch,
